@@ -5,7 +5,7 @@ from vf.rrun import _det_obj
 from geometry_tools import hyperbolic as h, utils, coxeter
 from geometry_tools.base import GeometryError
 from contracts import spec
-from contracts.c02 import spacelike
+from contracts.c02 import spacelike, SPACELIKE_STRATA
 
 P = "C15"
 H = "geometry_tools/hyperbolic.py:"
@@ -25,25 +25,21 @@ def _check_hyperplane_unit(ctx, tag, data, v, n):
     ctx.ensure(tag + 'rows_independent', det(data, ctx) ** 2, '>', 0)
 
 
-@rcontract(P, "hyperplane_from_normal", instances=[dict(n=2)], thorough=[dict(n=3)], timeout=150.0, max_paths=60,
+@rcontract(P, "hyperplane_from_normal", instances=[dict(n=2, stratum=s_) for s_ in SPACELIKE_STRATA], thorough=[dict(n=3, stratum="generic")], timeout=150.0, max_paths=60,
            functions=[H + "Hyperplane.__init__", H + "Hyperplane._compute_ideal_basis", H + "spacelike_to", H + "DualPoint.__init__",
                       "geometry_tools/projective.py:Transformation.apply", U + "find_isometry"])
-def hyperplane_from_normal(ctx, n):
-    v = spacelike(ctx, 'v', n)
-    ctx.assume(v[0] * v[0], '>', 0)
-    ctx.kernel_gs_form = spec.J(n + 1)
+def hyperplane_from_normal(ctx, n, stratum):
+    v = spacelike(ctx, 'v', n, stratum)
     Hp = h.Hyperplane(np.array(v, copy=True))
     ctx.ensure_true('shape', Hp.shape == () and Hp.proj_data.shape == (n + 1, n + 1), f"{Hp.proj_data.shape}")
     _check_hyperplane_unit(ctx, '', Hp.proj_data, v, n)
 
 
-@rcontract(P, "reflection_across", instances=[dict(n=2)], thorough=[dict(n=3)], timeout=150.0, max_paths=60,
+@rcontract(P, "reflection_across", instances=[dict(n=2, stratum=s_) for s_ in SPACELIKE_STRATA], thorough=[dict(n=3, stratum="generic")], timeout=150.0, max_paths=60,
            functions=[H + "Subspace.reflection_across", H + "Hyperplane._data_with_dual", U + "invert"])
-def reflection_across(ctx, n):
+def reflection_across(ctx, n, stratum):
     """involutive, orientation-reversing isometry fixing every point of the hyperplane and negating its normal"""
-    v = spacelike(ctx, 'v', n)
-    ctx.assume(v[0] * v[0], '>', 0)
-    ctx.kernel_gs_form = spec.J(n + 1)
+    v = spacelike(ctx, 'v', n, stratum)
     Hp = h.Hyperplane(np.array(v, copy=True))
     R = Hp.reflection_across().proj_data
     J = spec.J(n + 1)
@@ -153,6 +149,28 @@ def reflections_and_fixed_points(tier, rng, rep):
                 e = G.proj_data.reshape(-1, n + 1)
                 if not np.all(np.abs(e @ J @ v) <= 1e-6) or not np.all(np.abs(np.einsum('ki,ij,kj->k', e, J, e)) <= 1e-6):
                     rep.fail("geodesic_from_reflection", "endpoints are not the ideal points of the wall", inp)
+            # the wall moved by an isometry (after its own reflection has been asked for): the reflection across the moved
+            # wall negates the moved normal and fixes the moved ideal basis, i.e. it is the conjugate g R g^-1
+            W = h.Hyperplane(v.copy())
+            W.reflection_across()
+            g = h.Point((lambda w: w / np.linalg.norm(w) * rng.uniform(0.1, 0.8))(rng.normal(size=n)), model="klein").origin_to() @ h.Isometry.standard_rotation(rng.uniform(0.3, 2.8), dimension=n)
+            W2 = g @ W
+            R2 = W2.reflection_across().proj_data
+            nv2, ib2 = W2.spacelike_vector, W2.ideal_basis
+            if not np.all(np.abs(R2 @ J @ R2.T - J) <= 1e-6) or not np.all(np.abs(nv2 @ R2 + nv2) <= 1e-6 * (1 + np.max(np.abs(nv2)))):
+                rep.fail("reflection_of_moved_wall", "the reflection across g @ W does not negate the normal of g @ W", inp)
+            crs = (ib2 @ R2)[:, :, None] * ib2[:, None, :]
+            if not np.all(np.abs(crs - np.swapaxes(crs, -1, -2)) <= 1e-6 * max(1.0, np.max(np.abs(crs)))):
+                rep.fail("reflection_of_moved_wall", "the reflection across g @ W does not fix the ideal points of g @ W", inp)
+            # a composite of walls after item assignment
+            Wc = h.Hyperplane(_spacelike_batch(rng, (n + 2,), n))      # (k = n+1 normals would be read as one hyperplane's data: listed finding)
+            Wc.reflection_across()
+            Wc[1] = W2
+            Rc = Wc.reflection_across().proj_data
+            nvc = Wc.spacelike_vector
+            for j in range(n + 2):
+                if not np.all(np.abs(nvc[j] @ Rc[j] + nvc[j]) <= 1e-6 * (1 + np.max(np.abs(nvc[j])))):
+                    rep.fail("reflection_after_setitem", f"unit {j}", inp)
             return R
         R = rep.attempt("reflection_roundtrip_runs", inp, refl)
         # non-reflections are rejected
